@@ -120,9 +120,12 @@ def part_b(ctx):
         nruns = ctx.pick(5, 12)
         ok_reads = 0
         reported = 0
-        for i in range(nmod):
-            g = scopegen.ScopeGen(ctx.rng, budget=ctx.rng.choice([25, 40, 60]))
-            lines = g.module()
+        for i in range(-len(CORPUS_B), nmod):
+            if i < 0:
+                lines = CORPUS_B[i]
+            else:
+                g = scopegen.ScopeGen(ctx.rng, budget=ctx.rng.choice([25, 40, 60]))
+                lines = g.module()
             plain, sites = scopegen.render(lines, False)
             ins, _ = scopegen.render(lines, True)
             try:
@@ -152,10 +155,10 @@ def part_b(ctx):
                     reported += 1
                     ctx.violation('%s at a read that succeeds at run time (line %d col %d)' % (badpos[(l, c)][:2], l, c),
                                   {'kind': 'direct-B', 'source': plain, 'position': [l, c], 'name': name})
-            # completion offers the name (sampled)
+            # completion offers the name (sampled; every site for the corpus)
             sample = sorted(okset)
             ctx.rng.shuffle(sample)
-            for site in sample[:ctx.pick(1, 3)]:
+            for site in sample[:(len(sample) if i < 0 else ctx.pick(1, 3))]:
                 l, c, name = sites[site]
                 try:
                     prefix, props = assist(proj, plain, (l, c + len(name)), fn)
@@ -354,6 +357,24 @@ def part_c(ctx):
     cov['C_files'] = nfiles
     cov['C_must_succeed_reads_checked'] = checked
 
+
+# hand-written modules (markers ⟦n⟧ before the reads of interest), run first by part B: minimal forms of
+# seeded changes that random generation hits only with some probability
+CORPUS_B = [
+    # nonlocal rebinding read in its own right-hand side (seeded C01-r2-2)
+    ['def f():', '    count = 0', '    def g(step):', '        nonlocal count', '        count = ⟦1⟧count + step',
+     '        return ⟦2⟧count', '    return ⟦3⟧g(1)', '⟦4⟧f()'],
+    # walrus inside a comprehension in an if test (seeded C02-r2-1)
+    ['def f(values, limit):', '    if any((hit := v) > limit for v in ⟦1⟧values):', '        return ⟦2⟧hit', '    return 0', '⟦3⟧f([5], 1)'],
+    # multi-decorated def opening a function body and an except handler (seeded C01-r2-3, C13-r2-1)
+    ['def outer(wrap, deco2):', '    @_deco(⟦1⟧wrap)', '    @_deco(⟦2⟧deco2,', '           ⟦3⟧wrap)', '    # comment',
+     '    def inner(): pass', '    try:', '        raise ValueError()', '    except ValueError as err:',
+     '        @_deco(⟦4⟧err)', '        @_deco(⟦5⟧wrap)', '        def h(): pass', '    return inner', '⟦6⟧outer(1, 2)'],
+    # with items in sequence (seeded C01-2)
+    ['def f(p):', '    with _cm(⟦1⟧p) as a, _cm(⟦2⟧a) as b:', '        return ⟦3⟧b', '⟦4⟧f(1)'],
+    # star-import cycle of project modules (seeded C01-r2-1)
+    ['from gencyca import *', '⟦1⟧cyc_a', '⟦2⟧cyc_b'],
+]
 
 KNOWN = {
     'F46': ('class C:\n    y = [(lambda: t)() for t in [1]]\n', None,
